@@ -79,7 +79,7 @@ func verifC28WProgram(rt *rapid.T, c *kit.Case) {
 		rt.Fatalf("fixture: %v", err)
 	}
 	allKeys := []string{"a", "b", "c", "d", "e", "f", "g", "h"}
-	keyGen := rapid.SampledFrom(allKeys[:rapid.IntRange(2, len(allKeys)).Draw(rt, "numKeys")])
+	keyGen := rapid.SampledFrom(allKeys[:rapid.SampledFrom([]int{2, 2, 3, 3, 3, 4, 4, 5}).Draw(rt, "numKeys")])
 	sizeGen := rapid.OneOf(
 		rapid.IntRange(0, 120),
 		rapid.IntRange(0, 120),
